@@ -31,6 +31,9 @@ type c17Op struct {
 }
 
 type c17Case struct {
+	// Eager > 0: the scripted gateway answers from the link's write hook, while the client's writing
+	// goroutine is still inside the write (and yields Eager-1 times there)
+	Eager   int     `json:"eager,omitempty"`
 	Retries uint    `json:"retries"`
 	RetryMs int     `json:"retry_ms"`
 	Ops     []c17Op `json:"ops"`
@@ -53,7 +56,8 @@ func genFates(t *rapid.T, n int) []string {
 }
 
 func genC17(t *rapid.T) c17Case {
-	c := c17Case{Retries: uint(rapid.IntRange(0, 4).Draw(t, "retries")), RetryMs: rapid.SampledFrom([]int{1000, 3000}).Draw(t, "retry_ms")}
+	c := c17Case{Retries: uint(rapid.IntRange(0, 4).Draw(t, "retries")), RetryMs: rapid.SampledFrom([]int{1000, 3000}).Draw(t, "retry_ms"),
+		Eager: rapid.SampledFrom([]int{0, 0, 0, 1, 2, 4, 11}).Draw(t, "eager")}
 	n := rapid.IntRange(1, 6).Draw(t, "n")
 	registered := false
 	for i := 0; i < n; i++ {
@@ -121,6 +125,10 @@ func runC17(c c17Case) (r vf.Result) {
 	if err := connect(s, g); err != nil {
 		r.Fail("harness-connect", "%v", err)
 		return
+	}
+	if c.Eager > 0 {
+		s.SetEager(c.Eager - 1)
+		r.Label("eager-gateway")
 	}
 	var cur *c17Op
 	seen := map[string]int{} // transmissions seen per (type, msgID) of the current call
